@@ -1083,7 +1083,12 @@ def file_chain(ctx, tag, meta, expect, rname, localise=None, alt=()):
             # ---- export of the re-opened dataset
             _State.route = "export"
             try:
-                ds.export.hdf5(p2, features=["deform"], filtered=False)
+                # a filtered export first (it gives the *exported file* a new run identifier);
+                # the source's metadata and a later export are not affected by it
+                ds.export.hdf5(p2, features=["deform"], filtered=True, override=True)
+                compare_config(ctx, "export_roundtrip", "source after a filtered export",
+                               ds.config, exp_file, extra, meta=meta, alt=alt)
+                ds.export.hdf5(p2, features=["deform"], filtered=False, override=True)
                 with dclab.new_dataset(p2) as d2:
                     compare_config(ctx, "export_roundtrip", "file->export->reopen",
                                    d2.config, exp_file, extra, meta=meta, alt=alt)
